@@ -9,6 +9,8 @@ OBLIGATIONS = [
     "KafVerif.C32.http_ok_sound",
     "KafVerif.C32.only_complete_returns_envelope",
     "KafVerif.C32.produce_ok_sound",
+    "KafVerif.C32.ack_iff_code_zero",
+    "KafVerif.C32.ackPositiveOnly_violates",
     "KafVerif.C32.produceOld_violates",
     "KafVerif.C32.completeOld_subset_violates",
     "KafVerif.C32.partOld_rehash_violates",
@@ -31,7 +33,17 @@ ASSUMPTIONS = [
 ]
 
 MIN_PART = 5 * 1024 * 1024
-BROKERS = ["ack"] * 6 + ["code:6", "code:1", "code:87", "nopartition", "garbage", "close", "refuse"]
+BROKERS = ["ack"] * 6 + ["code:6", "code:-1", "code:?", "code:?", "nopartition", "garbage", "close", "refuse"]
+CODES = [0, -1, 1, 2, 3, 6, 7, 10, 87]
+
+
+def broker(rng):
+    """A broker reply class; `code:?` is drawn from the named Kafka codes (incl. 0 = ack and -1 = UNKNOWN_SERVER_ERROR) or any int16."""
+    b = rng.choice(BROKERS)
+    if b == "code:?":
+        n = rng.choice(CODES) if rng.chance(2, 3) else rng.range(-32768, 32767)
+        return "code:%d" % n
+    return b
 
 
 def gen_produce_case(rng):
@@ -42,7 +54,7 @@ def gen_produce_case(rng):
         alg = rng.choice(["-", "-", "-", "sha256", "md5", "crc32", "none", "bogus"])
         ck = rng.choice(["absent", "absent", "right", "right", "wrong"])
         fault = "none" if not rng.chance(1, 5) else rng.choice(["put", "create", "part1", "complete", "delete"])
-        ops.append("produce %d %d %s %s %s %s" % (n, rng.range(1, 250), alg, ck, fault, rng.choice(BROKERS)))
+        ops.append("produce %d %d %s %s %s %s" % (n, rng.range(1, 250), alg, ck, fault, broker(rng)))
     return ops
 
 
@@ -112,10 +124,10 @@ def gen_session_case(rng, focused=None):
     elif kind == 8 and nparts > 1:
         lst = [(rng.choice(allp), "ok") for _ in allp]           # right length, wrong numbers
     s3f = "1" if rng.chance(1, 10) and focused is None else "0"
-    br = rng.choice(BROKERS) if focused is None else rng.choice(["ack", "ack", "ack", "code:6", "nopartition", "garbage"])
+    br = broker(rng) if focused is None else rng.choice(["ack", "ack", "ack", "code:6", "code:-1", "code:0", "nopartition", "garbage"])
     ops.append("complete %s %s %s" % (",".join("%d:%s" % p for p in lst) or "-", s3f, br))
     if s3f == "1" or br != "ack" or rng.chance(1, 4):
-        ops.append("complete %s 0 %s" % (",".join("%d:ok" % n for n in allp), rng.choice(BROKERS)))
+        ops.append("complete %s 0 %s" % (",".join("%d:ok" % n for n in allp), broker(rng)))
     if rng.chance(1, 8):
         ops.append(rng.choice(["abort", "part 1 7 9 0", "complete 1:ok 0 ack"]))
     return ops
@@ -179,6 +191,10 @@ def _fails(ck, binary, ops, fp):
 
 CORPUS = [
     ["new 0 sha256", "produce 7 65 - absent none code:6"],
+    # negative codes are errors too (-1 = UNKNOWN_SERVER_ERROR is what the broker answers on internal produce faults); code 0 is an ack
+    ["new 0 sha256", "produce 7 66 - absent none code:-1", "produce 7 67 - absent none code:-32768", "produce 7 68 - absent none code:0",
+     "produce 7 69 - absent none code:32767"],
+    ["new 0 sha256", "init 7 - absent 0 7:2", "part 1 7 2 0", "complete 1:ok 0 code:-1"],
     ["new 0 sha256", "init %d - absent 0 %d:1,7:2" % (MIN_PART + 7, MIN_PART), "part 1 %d 1 0" % MIN_PART, "part 2 7 2 0", "complete 2:ok 0 ack"],
     ["new 0 sha256", "init 7 - absent 0 7:2", "part 1 7 2 1", "part 1 7 2 0", "complete 1:ok 0 ack"],
     # single-request bodies that take UploadStream's multipart path (exactly one chunk, one chunk + short tail, two chunks + tail)
@@ -213,7 +229,9 @@ def evaluate(ck, binary, cases):
             _, kv = parse(line)
             ck.count("%s:%s" % (k, kv.get("status", "?")))
             if k in ("produce", "complete"):
-                ck.count("broker:" + op.split()[-1].split(":")[0])
+                bk = op.split()[-1]
+                ck.count("broker:" + (bk.split(":")[0] if not bk.startswith("code:") else
+                                      "code" + ("0" if bk == "code:0" else "-neg" if bk.startswith("code:-") else "-pos")))
                 if kv.get("status") == "200":
                     ok200 += 1
         stored = any(" obj=" in l and " obj=none" not in l for l in io)
@@ -241,7 +259,7 @@ def hunt(ck, binary):
     ck.log("hunting for a concrete failing input")
     cases = [gen_session_case(ck.rng.fork(), focused=True) for _ in range(120)]
     cases += [["new 0 sha256"] + ["produce %d %d - %s none %s" % (ck.rng.choice([1, 7, 100]), ck.rng.range(1, 250), ck.rng.choice(["absent", "right"]), b)
-                                for b in ("ack", "code:6", "code:1", "nopartition", "garbage", "close")] for _ in range(5)]
+                                for b in ("ack", "code:6", "code:1", "code:-1", "code:-32768", "code:0", "nopartition", "garbage", "close")] for _ in range(5)]
     all_ops, bounds = [], []
     for ops in cases:
         bounds.append((len(all_ops), len(all_ops) + len(ops)))
